@@ -151,6 +151,13 @@ reg('C19', 'hist', 'model_checking',
     'Restoring captured athlib module state is taken as equivalent to a fresh process (checked on all length-1 histories); histories longer than 3 only in the saturated families.',
     'explicit enumeration of call histories on the real code against fresh-process reference outcomes', 'DESIGN.md 2.4, 3/C19')
 
+reg('C18', 'jsdiff', 'exploration',
+    'Differential enumeration: for each function pair the JavaScript sources declare to be ports (decimal round-up, duration formatting and parsing, hand-timing '
+    'detection, normalisation of the scoring-table keys, Tyrving and QuadKids scoring) Python enumerates the same grids as C06 and C11, one node process per chunk '
+    'evaluates /repo/js/src directly (CommonJS shim, no Babel) and every result pair is compared: numbers numerically, strings exactly, refusal vs refusal.',
+    'Python is the reference (pinned to the tables by C06/C11); node 20 semantics; comma decimals and malformed inputs are outside the shared domain.',
+    'bounded exhaustive differential enumeration (two implementations on one input grid)', 'DESIGN.md 2.6, 3/C18')
+
 ALL = ['C%02d' % i for i in range(1, 20)]
 PENDING_REASON = 'check not yet built in this session (planned, see DESIGN.md section 7); not claimed until it runs clean'
 
